@@ -109,6 +109,7 @@ func Sleep(d Duration) { Now(); Now() }
 
 func fire(t *timer) {
 	T := Now()
+	vrt.NoteFired()
 	t.fired++
 	if !t.periodic {
 		t.active = false
